@@ -1,3 +1,4 @@
+import Oidc.Proofs.CodeConfig
 import Oidc.Proofs.CodeHandler
 import Oidc.Proofs.CodeStrings
 import Oidc.Shapes
@@ -175,5 +176,17 @@ theorem code_isUserAuthenticated (c : Cfg) (e : Env) (v : View) (t : Go.Inst) (s
                  x.trunc = (e.tok sess.GetAccessToken).exp) :
     Code.TraefikOidc_isUserAuthenticated (e.now * 1000000000) t sess = classify c e v :=
   isUserAuthenticated_refines c e v t sess hA hR hT hG hP hV hE
+
+
+/-! ### the configuration gate, translated from settings.go on every run -/
+
+/-- the excluded prefixes of an accepted configuration begin with `/` and contain neither `..` nor `*` -/
+theorem code_validated_excluded_prefixes (c : Go.Config) (h : Oidc.Generated.Code.Config_Validate c = none) :
+    ∀ u ∈ c.ExcludedURLs, Go.hasPrefix u ['/'] = true ∧ Go.contains u ['.','.'] = false ∧ Go.contains u ['*'] = false :=
+  (Oidc.CodeConfig.Validate_none c h).excluded
+
+/-- everything `Config.Validate` insists on, at once -/
+theorem code_validated_config (c : Go.Config) (h : Oidc.Generated.Code.Config_Validate c = none) : Oidc.CodeConfig.Valid c :=
+  Oidc.CodeConfig.Validate_none c h
 
 end Oidc.Props.C01
